@@ -148,6 +148,7 @@ func (this *Allocator) run() {
 			switch update.(type) {
 			case *watchPartitionUpdate:
 				_partition := update.(*watchPartitionUpdate).partition
+				verifGate("allocator.watch", 0)
 				if this.isPartitionAssignedToNode(_partition) {
 					func(partition *partition) {
 						defer func() {
